@@ -435,6 +435,9 @@ def variants(naxes, dflt, midx, coef, contents=CONTENTS, maps=("none", "lin", "b
                     yield dict(base, rot=1)
                     if len(midx) > 2:
                         yield dict(base, rot=len(midx) - 1)
+                if mapk == "bent" and content in ("outl", "mvar"):
+                    # a second map shape: two extra knots, the first of them on the normalised diagonal
+                    yield dict(base, map="bent2")
 
 
 class Generated(Unit):
@@ -499,7 +502,7 @@ COMMON_WITNESSES = (
 class OneAxis(Generated):
     name = "generated-1axis"
     naxes = 1
-    rule = ("1 axis, 5 user positions {min,1/4,mid,3/4,max}: EVERY subset containing the default x default at {min, mid} (thorough: + max, and all four value coefficients) x map {none, lin, bent} x {ttf, cff} x 8 contents (+ optimize=False for glyph contents, + rotated source order for outl/kern/sparseg); "
+    rule = ("1 axis, 5 user positions {min,1/4,mid,3/4,max}: EVERY subset containing the default x default at {min, mid} (thorough: + max, and all four value coefficients) x map {none, lin, bent; bent2 = two knots, one on the normalised diagonal, for outl/mvar} x {ttf, cff} x 8 contents (+ optimize=False for glyph contents, + rotated source order for outl/kern/sparseg); "
             "oracle: VF at each master's user location (HarfBuzz: fvar+avar+gvar/CFF2/HVAR/GPOS/MVAR) == static master within the derived budget, default master exact, fvar/avar == designspace maps at knots and midpoints; distinct = designspace with a varying non-default master")
     required_witnesses = COMMON_WITNESSES + ("single master (no variation)",)
 
